@@ -617,7 +617,7 @@ impl Interp {
                 let k: usize = toks[1].parse().unwrap();
                 guard(|| self.space(k))
             }
-            "wf" => "V:1".into(),
+            "wf" | "lenschk" => "V:1".into(),
             "free" => {
                 let k: usize = toks[1].parse().unwrap();
                 self.set(k, Slot::Empty);
